@@ -88,6 +88,12 @@ type pipeCase struct {
 	XRReady1 string `json:"xrReadySecondStep,omitempty"`
 	Conds   []cond `json:"conds"`   // conditions the function returns
 	Fatal   string `json:"fatal,omitempty"` // "", "second-reconcile-step0", "second-reconcile-step1"
+	// StatusForge: the function also writes Ready=True / Synced=True (with its own reason) into
+	// status.conditions of the desired composite resource it returns
+	StatusForge bool `json:"statusForge,omitempty"`
+	// PublishFail: the XR asks for a connection secret whose name is taken by a secret another
+	// owner controls, so publishing fails after the pipeline and the applies succeeded
+	PublishFail bool `json:"publishFail,omitempty"`
 	// RejectAs: the error class the API server answers the apply of an "invalid" resource with:
 	// "" = 422 Invalid | notserved (no matches for kind) | forbidden | unavailable
 	RejectAs string `json:"rejectAs,omitempty"`
@@ -158,6 +164,25 @@ func (w *worker) program(step int, req *fnv1.RunFunctionRequest) (*fnv1.RunFunct
 			d.Composite = &fnv1.Resource{Ready: fnv1.Ready_READY_TRUE}
 		case "false":
 			d.Composite = &fnv1.Resource{Ready: fnv1.Ready_READY_FALSE}
+		}
+		if p.PublishFail {
+			if d.Composite == nil {
+				d.Composite = &fnv1.Resource{}
+			}
+			d.Composite.ConnectionDetails = map[string][]byte{"k": []byte("v")}
+		}
+		if p.StatusForge {
+			if d.Composite == nil {
+				d.Composite = &fnv1.Resource{}
+			}
+			fc := func(t string) any {
+				return map[string]any{"type": t, "status": "True", "reason": forged, "message": "forged by function", "lastTransitionTime": "2020-01-01T00:00:00Z"}
+			}
+			st, err := structpb.NewStruct(map[string]any{"apiVersion": "ex.org/v1", "kind": "XThing", "status": map[string]any{"conditions": []any{fc("Ready"), fc("Synced")}, "fromFunction": "yes"}})
+			if err != nil {
+				return nil, err
+			}
+			d.Composite.Resource = st
 		}
 		cs := p.Conds
 		if rec >= 1 && p.Fatal != "" {
@@ -248,6 +273,15 @@ func (w *worker) runPipe(i int, p pipeCase, name string) {
 	w.rec = 0
 	w.mu.Unlock()
 	world := w.pipeWorld(uint64(c.Seed)*131+uint64(i), p.RejectAs)
+	if p.PublishFail {
+		xr := &unstructured.Unstructured{Object: world.GetObj(xrKey)}
+		_ = unstructured.SetNestedMap(xr.Object, map[string]any{"name": "xr-conn", "namespace": "default"}, "spec", "writeConnectionSecretToRef")
+		if err := world.Client("user").Update(context.Background(), xr); err != nil {
+			panic(err)
+		}
+		world.MustSeed("someone-else", map[string]any{"apiVersion": "v1", "kind": "Secret", "type": "connection.crossplane.io/v1alpha1",
+			"metadata": map[string]any{"name": "xr-conn", "namespace": "default", "ownerReferences": []any{map[string]any{"apiVersion": "v1", "kind": "ConfigMap", "name": "other", "uid": "foreign-uid", "controller": true}}}})
+	}
 	env := xrk.NewXREnv(world, xrk.XRDTyped(w.xrd))
 	defer env.CloseConns()
 	allReady, anyInvalid := true, false
@@ -533,6 +567,8 @@ func main() {
 					q.Conds = cv
 					q.XRReady1 = []string{"keep", "unset", "true", "false", "keep", "unset"}[len(pipes)%6]
 					q.RejectAs = []string{"", "notserved", "", "forbidden", "notserved", "unavailable", ""}[len(pipes)%7]
+					q.StatusForge = len(pipes)%5 == 2
+					q.PublishFail = len(pipes)%3 == 1
 					pipes = append(pipes, q)
 					if ci >= 1 && n <= 2 {
 						for _, f := range []string{"second-reconcile-step0", "second-reconcile-step1"} {
